@@ -241,33 +241,57 @@ def complete (s : Schema) (g : Graph) (k : Nat → String → Nat → J × Acc) 
        | none => (.obj [], {}))
     | _, _ => (.null, { errs := [⟨[], .leaf⟩] })
 
-/-- the type the selections of an object-valued field are walked at.  As coded at first (D14) the field's declared
-type, also when that is an interface; repaired (`resolve`, `case *Interface`): the object type the node's Go type is
-bound to when that type implements the interface, else the interface itself.  (Union members are chosen by
-`complete`, in both configurations.) -/
-def dynTy (env : Env) (node : Nat) (ty : String) : String :=
-  if env.cfg.condByIdentity then ty else
-  match env.schema.find ty, env.graph[node]? with
-  | some (.iface ..), some n =>
-    (match env.schema.find n.goType with
-     | some (.object _ _ ifs) => if ifs.contains ty then n.goType else ty
-     | _ => ty)
-  | _, _ => ty
+/-- `objectType`: the object type of the node at a position of (static) type `ty` — `ty` itself when it is an object
+type; for an interface / union the object type the node's Go type is bound to, when that type implements the
+interface / is a member of the union; `none` when it can not be determined -/
+def objectTypeOf (env : Env) (node : Nat) (ty : String) : Option String :=
+  match env.schema.find ty with
+  | some (.object ..) => some ty
+  | some (.iface ..) =>
+    (match env.graph[node]? with
+     | some n => (match env.schema.find n.goType with
+                  | some (.object _ _ ifs) => if ifs.contains ty then some n.goType else none
+                  | _ => none)
+     | none => none)
+  | some (.union _ ms) =>
+    (match env.graph[node]? with
+     | some n => (match env.schema.find n.goType with
+                  | some (.object ..) => if ms.contains n.goType then some n.goType else none
+                  | _ => none)
+     | none => none)
+  | _ => none
 
-/-- does a fragment with condition `cond` apply at the type `ty` the selections are walked at?  As coded at first:
-identity.  Repaired (`fragmentApplies`): the condition is that type, an interface the (object) type implements or
-a union it is a member of. -/
-def fragApplies (env : Env) (_node : Nat) (ty : String) (cond : Option String) : Bool :=
+/-- GraphQL's DoesFragmentTypeApply for an object type `obj` and a type condition `c`: the condition is the
+type, an interface it implements, or a union it is a member of -/
+def typeApplies (s : Schema) (obj c : String) : Bool :=
+  c == obj ||
+  (match s.find obj with | some (.object _ _ ifs) => ifs.contains c | _ => false) ||
+  (match s.find c with | some (.union _ ms) => ms.contains obj | _ => false)
+
+/-- does a fragment with condition `cond` apply to the node at a position of static type `ty`?  As coded at first
+(D14): only when the condition *is* that type.  Repaired (`fragmentType`): also when the node's object type can be
+determined and the condition is that type, an interface it implements or a union it is a member of. -/
+def fragApplies (env : Env) (node : Nat) (ty : String) (cond : Option String) : Bool :=
   match cond with
   | none => true
   | some c =>
-    if env.cfg.condByIdentity then c == ty
-    else
-      c == ty ||
-      (match env.schema.find ty with
-       | some (.object _ _ ifs) =>
-         ifs.contains c || (match env.schema.find c with | some (.union _ ms) => ms.contains ty | _ => false)
-       | _ => false)
+    c == ty ||
+    (!env.cfg.condByIdentity &&
+      (match objectTypeOf env node ty with
+       | some ot => typeApplies env.schema ot c
+       | none => false))
+
+/-- the static type the selections of an applying fragment are walked at: its type condition (as coded at first
+the condition was the type of the position anyway) -/
+def fragTy (env : Env) (ty : String) (cond : Option String) : String :=
+  match cond with
+  | none => ty
+  | some c => if env.cfg.condByIdentity then ty else c
+
+/-- `__typename`: as coded at first the name of the position's type (D14: the interface under an interface-typed
+field); repaired, the node's object type when it can be determined -/
+def typeNameOf (env : Env) (node : Nat) (ty : String) : String :=
+  if env.cfg.condByIdentity then ty else (objectTypeOf env node ty).getD ty
 
 mutual
 /-- one selection against `(node, ty)` at resolveSels-depth `d`, updating the result map -/
@@ -278,9 +302,7 @@ def rSel (env : Env) (node : Nat) (ty : String) (d : Nat) (res : List (String ×
     let skipErrs : List Err := (List.replicate sk.2 (⟨[.key key], .directive⟩ : Err))
     if sk.1 then (res, { errs := skipErrs }) else
     if name == "__typename" then
-      -- the name of the type the selections are walked at (`dynTy`: under an interface-typed field the interface
-      -- itself as coded at first, D14; the object's own type once repaired)
-      (setKey res key (.str ty), { errs := skipErrs }) else
+      (setKey res key (.str (typeNameOf env node ty)), { errs := skipErrs }) else
     match getFieldDef env.schema ty name with
     | none => (res, { errs := skipErrs ++ [⟨[.key key], .notAField name⟩] })
     | some fd =>
@@ -293,7 +315,7 @@ def rSel (env : Env) (node : Nat) (ty : String) (d : Nat) (res : List (String ×
         let fr : FieldRes := fetch env.graph node name
         let call : Call := ⟨node, name, ty, args⟩
         let resolverErrs : List Err := List.replicate fr.errs ⟨[], .resolver⟩
-        let (fv, acc) := complete env.schema env.graph (fun n t d' => if sels.isEmpty then (.obj [], { errs := [⟨[], .noSelection⟩] }) else let r := rSels env n (dynTy env n t) d' [] sels; (.obj r.1, r.2)) fd.type fr.val d
+        let (fv, acc) := complete env.schema env.graph (fun n t d' => if sels.isEmpty then (.obj [], { errs := [⟨[], .noSelection⟩] }) else let r := rSels env n t d' [] sels; (.obj r.1, r.2)) fd.type fr.val d
         let fv := if fr.errs > 0 && !env.cfg.keepValueOnError then J.null else fv
         ((match fr.val with | .nil => putNil env.cfg res key | _ => putVal env.cfg res key fv),
          { errs := skipErrs ++ prefixErrs (.key key) (resolverErrs ++ acc.errs), calls := call :: acc.calls })
@@ -302,7 +324,7 @@ def rSel (env : Env) (node : Nat) (ty : String) (d : Nat) (res : List (String ×
     let skipErrs : List Err := (List.replicate sk.2 (⟨[], .directive⟩ : Err))
     if sk.1 then (res, { errs := skipErrs }) else
     if fragApplies env node ty cond then
-      let r := rSels env node ty d res sels
+      let r := rSels env node (fragTy env ty cond) d res sels
       let errs := match spread with
         | some _ => if env.cfg.fragPathSegment then prefixErrs .frag r.2.errs else r.2.errs
         | none => r.2.errs
